@@ -1926,4 +1926,256 @@ Section Inv.
       cbn [negb]. match goal with |- context [rest_exts nobad ?f ?t ?a ?b ?c ?d] => destruct (rest_exts_some f t a b c d) as (r & ->) end.
       eexists; reflexivity.
   Qed.
+
+  (* ---- adfFileTruncate to a smaller size ---- *)
+  Lemma firstn_len_le {A} (l : list A) n : 0 <= n <= len l -> len (firstn (Z.to_nat n) l) = n.
+  Proof. intros H. unfold len in *. rewrite firstn_length. lia. Qed.
+
+  Lemma nodup_prefixes (L E : list Z) a b : NoDup (key :: L ++ E) -> NoDup (key :: firstn a L ++ firstn b E).
+  Proof.
+    intros H. inversion H as [|? ? Hk Hn]; subst. destruct (nodup_app_inv _ _ Hn) as (HL & HE & Hd). constructor.
+    - intros Hc. apply Hk. apply in_app_or in Hc. apply in_or_app. destruct Hc as [Hc|Hc]; [left|right]; apply (in_firstn _ _ _ Hc).
+    - apply nodup_app_intro; [apply nodup_firstn; exact HL|apply nodup_firstn; exact HE|].
+      intros x Hx Hy. apply (Hd x); [apply (in_firstn _ _ _ Hx)|apply (in_firstn _ _ _ Hy)].
+  Qed.
+
+  Lemma enc_prefix_other (L E : list Z) n' x' j : 0 <= j -> 72 * (j + 1) + 72 <= n' -> n' <= len L -> j + 1 < x' -> x' <= len E ->
+    enc_x (firstn (Z.to_nat n') L) (firstn (Z.to_nat x') E) j = enc_x L E j.
+  Proof.
+    intros Hj Hw Hn Hx HxE. unfold enc_x. rewrite !nthZ_firstn by lia. rewrite window_firstn_full by lia.
+    rewrite firstn_len_le by lia. f_equal. lia.
+  Qed.
+
+  Lemma size2db_last new : 0 < new -> size2db new bs = (new - 1) / bs + 1.
+  Proof.
+    intros H. apply size2db_unique; [lia|]. pose proof (Z.div_mod (new - 1) bs ltac:(lia)). pose proof (Z.mod_pos_bound (new - 1) bs Hbs). nia.
+  Qed.
+
+  (* the state adfFileTruncate leaves after cutting the tables, described by its fields *)
+  Lemma shrink_final s1 s2 sf L E ct new :
+    Inv s1 L E -> chg s1 = false -> Repr s1 L ct -> mw s1 = true -> 0 < new < fsize s1 ->
+    let t := set_fh s1 (set_h_size (fh s1) new) in
+    let n' := size2db new bs in let x' := db2ext n' in
+    let L' := firstn (Z.to_nat n') L in let E' := firstn (Z.to_nat x') E in
+    Loaded t s2 L E (n' - 1) -> pos s2 = new -> pind s2 = (if new mod bs =? 0 then bs else new mod bs) -> len (d_bytes (cdata s2)) = bs ->
+    dk sf = dk s2 -> pos sf = new -> pind sf = pind s2 -> pinx sf = pinx s2 -> ndb sf = ndb s2 -> cur sf = cur s2 -> chg sf = true -> mw sf = true ->
+    d_bytes (cdata sf) = d_bytes (cdata s2) ->
+    hdr_ok (fh sf) L' E' -> h_size (fh sf) = new ->
+    cext sf = (if x' <? 1 then None else Some (enc_x L' E' (x' - 1))) ->
+    Inv sf L' E' /\ Repr sf L' (firstn (Z.to_nat new) ct).
+  Proof.
+    intros I Hc R Hw Hnew t n' x' L' E' Hld P2 Pi2 Hl2 Fdk Fpos Fpind Fpinx Fndb Fcur Fchg Fmw Fby Fh Fsz Fcx.
+    pose proof I as (B & HL & C). pose proof (b_size _ _ _ B) as Hsz.
+    destruct Hld as (L1 & L2 & L3 & L4 & L5 & L6 & L7 & L8 & L9 & L10 & L11).
+    assert (Hn' : n' = (new - 1) / bs + 1) by (apply size2db_last; lia).
+    assert (Hn'L : 1 <= n' <= len L) by (subst n'; rewrite HL; split; [pose proof (size2db_pos new ltac:(lia)); lia|apply size2db_mono; lia]).
+    assert (HxE : 0 <= x' <= len E).
+    { subst x'. rewrite (b_nE _ _ _ B). split; [unfold db2ext, MAXDB; destruct (n' <? 1); lia|apply db2ext_mono; lia]. }
+    assert (HlL' : len L' = n') by (subst L'; apply firstn_len_le; lia).
+    assert (HlE' : len E' = x') by (subst E'; apply firstn_len_le; lia).
+    assert (HL'k : forall k, 0 <= k < n' -> nthZ L' k = nthZ L k) by (intros k Hk; subst L'; apply nthZ_firstn; lia).
+    assert (HE'j : forall j, 0 <= j < x' -> nthZ E' j = nthZ E j) by (intros j Hj; subst E'; apply nthZ_firstn; lia).
+    assert (Hx'v : x' = (n' - 1) / 72) by (subst x'; unfold db2ext, MAXDB; destruct (Z.ltb_spec n' 1); [lia|reflexivity]).
+    assert (Clean1 : CB s1 L E) by (split; [exact B|split; [exact HL|exact Hc]]).
+    (* the volume is the one of s1 *)
+    assert (Hdk : dk sf = dk s1) by (rewrite Fdk, L1; reflexivity).
+    assert (Hcur2 : 2 <= cur sf) by (rewrite Fcur, L8; apply (b_ge2 _ _ _ B); apply in_or_app; left; apply in_L_nth; lia).
+    assert (Hbuf : forall k, buffered sf k = (k =? n' - 1)).
+    { intros k. unfold buffered. rewrite Fndb, L9. replace (n' - 1 + 1 - 1) with (n' - 1) by lia. destruct (Z.eqb_spec (cur sf) 0); [lia|reflexivity]. }
+    assert (Bf : Base sf L' E').
+    { constructor.
+      - exact Fh.
+      - unfold fsize. rewrite Fsz. lia.
+      - rewrite HlL', HlE'. reflexivity.
+      - subst L' E'. apply nodup_prefixes. apply (b_nodup _ _ _ B).
+      - intros b Hb. apply (b_ge2 _ _ _ B). apply in_app_or in Hb. apply in_or_app. destruct Hb as [Hb|Hb]; [left|right]; apply (in_firstn _ _ _ Hb).
+      - rewrite Fcx. destruct (Z.ltb_spec x' 1); [exact Logic.I|]. right. exists (x' - 1). split; [lia|reflexivity].
+      - intros j Hj. rewrite HlE' in Hj. destruct (Z.eq_dec j (x' - 1)) as [->|Hne].
+        + right. split; [exact Fchg|]. rewrite Fcx. destruct (Z.ltb_spec x' 1); [lia|reflexivity].
+        + left. rewrite (HE'j j Hj), Hdk. subst L' E'. rewrite enc_prefix_other by lia. apply (cb_ext s1 L E j Clean1). lia.
+      - intros k Hk. rewrite HlL' in Hk. destruct (Z.eq_dec k (n' - 1)) as [->|Hne].
+        + left. split; [rewrite Hbuf; apply Z.eqb_refl|exact Fchg].
+        + right. rewrite (HL'k k Hk), Hdk. destruct (cb_data s1 L E k Clean1 ltac:(lia)) as (d & Hd & Hlen & Hnx). exists d. splits; try assumption.
+          intros Ho Hk1. rewrite HlL' in Hk1. rewrite (HL'k (k + 1) ltac:(lia)). apply Hnx; [exact Ho|lia].
+      - intros _. exact Fmw. }
+    assert (Hpe : new = (n' - 1) * bs + pind s2 /\ 0 < pind s2 <= bs).
+    { rewrite Pi2, Hn'. replace ((new - 1) / bs + 1 - 1) with ((new - 1) / bs) by lia.
+      pose proof (Z.div_mod new bs ltac:(lia)) as Hdm. pose proof (Z.div_mod (new - 1) bs ltac:(lia)) as Hdm1.
+      pose proof (Z.mod_pos_bound (new - 1) bs Hbs) as Hm1. pose proof (Z.mod_pos_bound new bs Hbs) as Hm.
+      destruct (Z.eqb_spec (new mod bs) 0) as [Hz|Hz].
+      - assert ((new - 1) / bs = new / bs - 1) by (symmetry; apply (Z.div_unique_pos _ _ _ (bs - 1)); lia). split; nia.
+      - assert ((new - 1) / bs = new / bs) by (symmetry; apply (Z.div_unique_pos _ _ _ (new mod bs - 1)); lia). split; nia. }
+    split.
+    - split; [exact Bf|]. split; [unfold fsize; rewrite Fsz, HlL'; reflexivity|].
+      right. unfold fsize. rewrite Fsz, Fcur, Fndb, Fpos, Fpind, Fchg, L8, L9, HlL', Fby.
+      replace (n' - 1 + 1 - 1) with (n' - 1) by lia.
+      splits; try assumption; try lia.
+      + symmetry. apply HL'k. lia.
+      + unfold ext_cursor in *. rewrite Fcx, Fpinx. intros H72. destruct (L11 H72) as (_ & Hpx).
+        destruct (Z.ltb_spec x' 1) as [Hx1|Hx1]; [lia|].
+        split; [|exact Hpx]. f_equal. f_equal. lia.
+    - destruct R as (Hlct & Hr). split.
+      + unfold fsize. rewrite Fsz. apply firstn_len_le. lia.
+      + intros i Hi. unfold fsize in Hi. rewrite Fsz in Hi. rewrite nthZ_firstn by lia. rewrite (Hr i ltac:(lia)). unfold byte_at.
+        assert (Hk : 0 <= i / bs < n') by (subst n'; apply idx_in_range; lia).
+        f_equal. unfold truth_d. rewrite Hbuf.
+        assert (Hcl1 : forall k, 0 <= k < len L -> truth_d s1 L k = disk_d s1 L k).
+        { intros k Hk1. destruct (clean_disk s1 L E k I Hc Hk1) as (d & Hd & _ & _ & Ht). rewrite Ht. unfold disk_d. rewrite Hd. reflexivity. }
+        fold (truth_d s1 L (i / bs)). rewrite (Hcl1 (i / bs) ltac:(lia)). unfold disk_d.
+        destruct (Z.eqb_spec (i / bs) (n' - 1)) as [He|He].
+        * rewrite Fby, He. assert (Hd10 : dk s1 (nthZ L (n' - 1)) = BData (cdata s2)) by exact L10. rewrite Hd10. reflexivity.
+        * rewrite (HL'k (i / bs) Hk), Hdk. reflexivity.
+  Qed.
+
+  (* the table edits of adfFileTruncate after the seek to the new end, as a function of the state and the two sizes (the text of
+     Model/FileIO.fio_truncate for a new size other than 0) *)
+  Definition shrink_edit (s2 : hstate) (sizeNew sizeOld : Z) : hstate :=
+    let s3 :=
+              let nDNew := size2db sizeNew bs in
+              let nDOld := size2db sizeOld bs in
+              let nXOld := db2ext nDOld in
+              let nXNew := db2ext nDNew in
+              let sa :=
+                if negb (nDNew mod MAXDB =? 0) then
+                  let firstD := nDNew mod MAXDB in
+                  let lastD := if (nXNew <? nXOld) || (nDOld mod MAXDB =? 0) then MAXDB - 1 else nDOld mod MAXDB in
+                  let st := if nXNew <? 1 then set_fh s2 (set_h_tab (fh s2) (clear_range (h_tab (fh s2)) firstD lastD))
+                            else set_cext s2 (Some (set_x_tab (cx s2) (clear_range (x_tab (cx s2)) firstD lastD))) in
+                  if nDNew <=? MAXDB then set_fh st (set_h_high (fh st) firstD)
+                  else set_cext st (Some (set_x_high (cx st) firstD))
+                else s2 in
+              let sb := if ofs then
+                          set_cdata sa (set_d_next (set_d_size (cdata sa) (if sizeNew mod bs =? 0 then bs else sizeNew mod bs)) 0)
+                        else sa in
+              let sc := set_chg sb true in
+              if nDNew <=? MAXDB then set_fh sc (set_h_ext (fh sc) 0)
+              else set_cext sc (Some (set_x_ext (cx sc) 0)) in
+    if size2ext sizeNew bs <? 1 then set_cext s3 None else s3.
+
+  Lemma shrink_edit_fields s2 sizeNew sizeOld : 1 <= size2db sizeNew bs ->
+    let n' := size2db sizeNew bs in let nL := size2db sizeOld bs in
+    let lastD := if (db2ext n' <? db2ext nL) || (nL mod 72 =? 0) then 71 else nL mod 72 in
+    let sf := shrink_edit s2 sizeNew sizeOld in
+    dk sf = dk s2 /\ pos sf = pos s2 /\ pind sf = pind s2 /\ pinx sf = pinx s2 /\ ndb sf = ndb s2 /\ cur sf = cur s2 /\ chg sf = true /\ mw sf = mw s2
+    /\ d_bytes (cdata sf) = d_bytes (cdata s2) /\ h_size (fh sf) = h_size (fh s2) /\ h_key (fh sf) = h_key (fh s2) /\ h_first (fh sf) = h_first (fh s2)
+    /\ (n' <= 72 -> cext sf = None /\ h_ext (fh sf) = 0
+                    /\ h_tab (fh sf) = (if n' mod 72 =? 0 then h_tab (fh s2) else clear_range (h_tab (fh s2)) (n' mod 72) lastD)
+                    /\ h_high (fh sf) = (if n' mod 72 =? 0 then h_high (fh s2) else n' mod 72))
+    /\ (72 < n' -> fh sf = fh s2
+                   /\ cext sf = Some (set_x_ext (if n' mod 72 =? 0 then cx s2
+                                                 else set_x_high (set_x_tab (cx s2) (clear_range (x_tab (cx s2)) (n' mod 72) lastD)) (n' mod 72)) 0)).
+  Proof.
+    intros H1 n' nL lastD sf. subst sf lastD. unfold shrink_edit, size2ext, MAXDB. fold n'. fold nL.
+    assert (Hx : (db2ext n' <? 1) = (n' <=? 72)).
+    { unfold db2ext, MAXDB. destruct (Z.ltb_spec n' 1); [lia|]. destruct (Z.ltb_spec ((n' - 1) / 72) 1); destruct (Z.leb_spec n' 72); try reflexivity; lia. }
+    rewrite Hx. destruct (Z.leb_spec n' 72) as [H72|H72]; destruct (Z.eqb_spec (n' mod 72) 0) as [Hm|Hm]; cbn [negb]; destruct ofs;
+      cbn -[clear_range Z.ltb Z.eqb Z.leb Z.min Z.mul Z.modulo]; splits; try reflexivity; try (intros; lia); intros _; splits; reflexivity.
+  Qed.
+
+  Theorem fio_truncate_shrink_ok s L E ct al new : Inv s L E -> Repr s L ct -> mw s = true -> 0 <= new < fsize s ->
+    let n' := size2db new bs in let x' := db2ext n' in
+    let L' := firstn (Z.to_nat n') L in let E' := firstn (Z.to_nat x') E in
+    exists s' rem, fio_truncate bs ofs nobad s new al = (true, s', rem, al) /\ Inv s' L' E' /\ Repr s' L' (firstn (Z.to_nat new) ct)
+      /\ pos s' = new /\ fsize s' = new.
+  Proof.
+    intros I R Hw Hnew n' x' L' E'. unfold fio_truncate. rewrite Hw. cbn [negb].
+    destruct (Z.eqb_spec new (fsize s)); [lia|]. destruct (Z.ltb_spec (fsize s) new); [lia|].
+    destruct (flush_inv s L E I Hw) as (I1 & Hc1 & (Spos & Spinx & Spind & Sndb & Scur & Scext & Sfh & Smw & Smr & Sby & Snx) & Htr & _).
+    remember (set_chg (fio_flush bs ofs s) false) as s1 eqn:Hs1. clear Hs1.
+    assert (R1 : Repr s1 L ct) by (apply (repr_same s s1 L ct); [unfold fsize; rewrite Sfh; reflexivity|destruct I as (_ & HL & _); exact HL|exact Htr|exact R]).
+    assert (Hf1 : fsize s1 = fsize s) by (unfold fsize; rewrite Sfh; reflexivity).
+    assert (Hw1 : mw s1 = true) by congruence.
+    destruct (blocks_to_remove_some s1 L E new I1 Hc1 ltac:(lia)) as (rem & Hrem). rewrite Hrem.
+    pose proof I1 as (B1 & HL1 & C1). pose proof (b_hdr _ _ _ B1) as (Hhk & Htab & Hhigh & Hfirst & Hext). pose proof (lenE_of s1 L E B1) as HlE.
+    destruct (Z.eq_dec new 0) as [H0|H0].
+    - (* the file becomes empty *)
+      subst new. assert (Hn0 : n' = 0) by (subst n'; apply size2db_0). assert (Hx0 : x' = 0) by (subst x'; rewrite Hn0; reflexivity).
+      assert (HL0 : L' = []) by (subst L'; rewrite Hn0; reflexivity). assert (HE0 : E' = []) by (subst E'; rewrite Hx0; reflexivity).
+      rewrite HL0, HE0.
+      unfold seek_eof. change (fsize (set_fh s1 (set_h_size (fh s1) 0))) with 0. cbn [Z.eqb]. unfold seek_start.
+      change (fsize (set_cur (set_ndb (set_pind (set_pinx (set_pos (set_fh s1 (set_h_size (fh s1) 0)) 0) 0) 0) 0) 0)) with 0. cbn [Z.eqb negb].
+      unfold size2ext. rewrite size2db_0. cbn -[zerosZ].
+      eexists. eexists. split; [reflexivity|].
+      assert (Hl0 : len (d_bytes (cdata s1)) = bs) by (destruct C1 as [(_ & _ & _ & _ & _ & Hl0)|(_ & _ & _ & _ & _ & Hl0 & _)]; exact Hl0).
+      splits; try reflexivity.
+      + split; [|split].
+        * constructor; cbn -[zerosZ subZ].
+          -- unfold hdr_ok. cbn -[zerosZ subZ]. splits; try reflexivity; exact Hhk.
+          -- unfold fsize. cbn. lia.
+          -- reflexivity.
+          -- constructor; [intros []|constructor].
+          -- intros b [].
+          -- exact Logic.I.
+          -- intros j Hj. unfold len in Hj. simpl in Hj. lia.
+          -- intros k Hk. unfold len in Hk. simpl in Hk. lia.
+          -- rewrite Hc1. discriminate.
+        * unfold fsize. cbn -[size2db]. rewrite size2db_0. reflexivity.
+        * left. unfold fsize. cbn. splits; try reflexivity. exact Hl0.
+      + split; [reflexivity|]. unfold fsize. cbn. intros i Hi. lia.
+    - (* at least one block is kept *)
+      destruct (seek_eof_l s1 L E new I1 Hc1 ltac:(lia)) as (s2 & Hse & Hld & P2 & Pi2 & Hl2 & _).
+      rewrite Hse. cbn [negb]. destruct (Z.eqb_spec new 0); [contradiction|].
+      change (true, ?a, rem, al) with (true, a, rem, al).
+      match goal with |- exists s' rem0, (true, ?x, rem, al) = _ /\ _ => change x with (shrink_edit s2 new (fsize s)) end.
+      exists (shrink_edit s2 new (fsize s)), rem. split; [reflexivity|].
+      assert (Hn' : n' = (new - 1) / bs + 1) by (apply size2db_last; lia).
+      rewrite <- (Z.add_simpl_r ((new - 1) / bs) 1) in Hld. rewrite <- Hn' in Hld.
+      pose proof Hld as (L1 & L2 & L3 & L4 & L5 & L6 & L7 & L8 & L9 & L10 & L11).
+      assert (Hn'L : 1 <= n' <= len L) by lia.
+      assert (HxE : 0 <= x' <= len E) by (subst x'; rewrite (b_nE _ _ _ B1); split; [unfold db2ext, MAXDB; destruct (n' <? 1); lia|apply db2ext_mono; lia]).
+      assert (Hx'v : x' = (n' - 1) / 72) by (subst x'; unfold db2ext, MAXDB; destruct (Z.ltb_spec n' 1); [lia|reflexivity]).
+      assert (HlEv : len E = (len L - 1) / 72) by (rewrite HlE; destruct (Z.ltb_spec (len L) 1); lia).
+      assert (Hold : size2db (fsize s) bs = len L) by (rewrite <- Hf1; symmetry; exact HL1).
+      assert (Hfh2 : fh s2 = set_h_size (fh s1) new) by exact L4.
+      assert (HlL' : len L' = n') by (subst L'; apply firstn_len_le; lia).
+      assert (HlE' : len E' = x') by (subst E'; apply firstn_len_le; lia).
+      destruct (shrink_edit_fields s2 new (fsize s) ltac:(fold n'; lia))
+        as (F1 & F2 & F3 & F4 & F5 & F6 & F7 & F8 & F9 & F10 & F11 & F12 & FA & FB).
+      fold n' in FA, FB. rewrite Hold in FA, FB. fold x' in FA, FB. rewrite <- (b_nE _ _ _ B1) in FA, FB.
+      set (sf := shrink_edit s2 new (fsize s)) in *.
+      set (lastD := if (x' <? len E) || (len L mod 72 =? 0) then 71 else len L mod 72) in *.
+      assert (HlastD : lastD = 71 \/ len L <= 72 * x' + lastD + 1 /\ 0 <= lastD < 72).
+      { subst lastD. destruct (Z.ltb_spec x' (len E)); [left; reflexivity|]. destruct (Z.eqb_spec (len L mod 72) 0); [left; reflexivity|]. right. cbn [orb]. lia. }
+      assert (HlastD2 : 0 <= lastD < 72) by (destruct HlastD as [Hq|(_ & Hq)]; lia).
+      assert (Hfin : Inv sf L' E' /\ Repr sf L' (firstn (Z.to_nat new) ct)).
+      { apply (shrink_final s1 s2 sf L E ct new I1 Hc1 R1 Hw1 ltac:(lia) Hld P2 Pi2 Hl2); try assumption; try congruence; fold n'; fold x'; fold L'; fold E'.
+        - rewrite F8, L5. exact Hw1.
+        - (* the header *)
+          unfold hdr_ok. rewrite F11, F12, Hfh2. cbn [h_key h_first set_h_size]. rewrite Hhk, Hfirst.
+          destruct (Z.leb_spec n' 72) as [H72|H72].
+          + destruct (FA H72) as (_ & Fe & Ft & Fhh). rewrite Fe, Ft, Fhh, Hfh2. cbn [h_tab h_high set_h_size]. rewrite Htab, Hhigh, HlL'.
+            assert (Hx0 : x' = 0) by lia.
+            splits; try reflexivity.
+            * destruct (Z.eqb_spec (n' mod 72) 0) as [Hm|Hm].
+              -- subst L'. symmetry. apply window_firstn_full; lia.
+              -- subst L'. replace n' with (0 + n' mod 72) at 2 by lia. apply clear_window; try lia.
+            * destruct (Z.eqb_spec (n' mod 72) 0); lia.
+            * subst L'. symmetry. apply nthZ_firstn. lia.
+            * subst E'. symmetry. apply nthZ_firstn_oob. lia.
+          + destruct (FB H72) as (Ff & _). rewrite Ff, Hfh2. cbn [h_tab h_high h_ext set_h_size]. rewrite Htab, Hhigh, Hext, HlL'.
+            splits; try reflexivity.
+            * subst L'. symmetry. apply window_firstn_full; lia.
+            * lia.
+            * subst L'. symmetry. apply nthZ_firstn. lia.
+            * subst E'. symmetry. apply nthZ_firstn. lia.
+        - rewrite F10, Hfh2. reflexivity.
+        - (* the buffered extension block *)
+          destruct (Z.ltb_spec x' 1) as [Hx1|Hx1].
+          + destruct (FA ltac:(lia)) as (Fc & _). exact Fc.
+          + destruct (FB ltac:(lia)) as (_ & Fc). rewrite Fc. destruct (L11 ltac:(lia)) as (Hcx2 & _).
+            unfold cx. rewrite Hcx2. replace ((n' - 1 - 72) / 72) with (x' - 1) by lia. f_equal.
+            unfold enc_x, set_x_ext, set_x_high, set_x_tab. destruct (Z.eqb_spec (n' mod 72) 0) as [Hm|Hm]; cbn [x_key x_parent x_high x_tab x_ext];
+              replace (x' - 1 + 1) with x' by lia; rewrite HlL'; f_equal.
+            * subst E'. symmetry. apply nthZ_firstn. lia.
+            * lia.
+            * subst L'. symmetry. apply window_firstn_full; lia.
+            * subst E'. symmetry. apply nthZ_firstn_oob. lia.
+            * subst E'. symmetry. apply nthZ_firstn. lia.
+            * lia.
+            * subst L'. replace n' with (72 * x' + n' mod 72) at 2 by lia. apply clear_window; try lia.
+            * subst E'. symmetry. apply nthZ_firstn_oob. lia. }
+      destruct Hfin as (If & Rf). splits; try assumption.
+      + rewrite F2. exact P2.
+      + unfold fsize. rewrite F10, Hfh2. reflexivity.
+  Qed.
 End Inv.
